@@ -39,12 +39,17 @@ def configs(tier, seed):
                 if k not in order:
                     order.append(k)
             cfgs.append({"modes": modes, "order": order})
+    for k, c in enumerate(cfgs):
+        c["via_signature"] = k % 2          # which half of the sources comes from Source.Signature(...).create()
     return cfgs
 
 
 def build(cfg):
     from amaranth_soc import event
-    srcs = [event.Source(trigger=m, path=(f"s{k}",)) for k, m in enumerate(cfg["modes"])]
+    # every second source is obtained the other documented way: from its signature (a component declaring
+    # Out(event.Source.Signature(trigger=...)) gets its ports through Signature.create()); both routes must give the same source
+    srcs = [event.Source(trigger=m, path=(f"s{k}",)) if (k + cfg.get("via_signature", 0)) % 2 == 0
+            else event.Source.Signature(trigger=m).create(path=(f"s{k}",)) for k, m in enumerate(cfg["modes"])]
     emap = event.EventMap()
     for k in cfg["order"]:
         emap.add(srcs[k])
@@ -82,7 +87,7 @@ def check_config(ctx, cfg):
     clear0 = f0.inp(mon.clear); en0 = f0.inp(mon.enable)
     for s in srcs:
         k = emap.index(s)
-        m = s.trigger.value
+        m = cfg["modes"][srcs.index(s)]          # the mode the source was DECLARED with (not what the object reports about itself)
         tag = f"[{k}:{m}]"
         ctx.prove("trg_mode", f1.val(s.trg) == mode_fn(m, f1.inp(s.i), f0.inp(s.i)), frames=[f0, f1])
         ctx.prove("trg_reset", fr.val(s.trg) == mode_fn(m, fr.inp(s.i), z3.BitVecVal(0, 1)), frames=[fr])
